@@ -141,6 +141,157 @@ static Wire run_io(Reader& r) {
     return out;
 }
 
+// ------------------------------------------------------------------ object machines: Geometry, Sensors, Mesh
+static ll fnv(const void* p,size_t n,ll h=1469598103934665603ULL) {
+    const unsigned char* c = static_cast<const unsigned char*>(p);
+    unsigned long long x = (unsigned long long)h;
+    for (size_t i=0;i<n;++i) { x ^= c[i]; x *= 1099511628211ULL; }
+    return (ll)x;
+}
+static ll fold(ll h) { return (ll)(((unsigned long long)h)>>14) | 1; }     // 50 bits, never 0
+static ll vhash(const Vect3& v) { double d[3] = { v.x(), v.y(), v.z() }; for (double& x : d) if (x==0.0) x = 0.0; return fold(fnv(d,sizeof d)); }
+static ll shash(const std::string& s) { return fold(fnv(s.data(),s.size())); }
+static ll mhash(const double* d,size_t n) { return fold(fnv(d,n*sizeof(double))); }
+
+struct Catalog {
+    std::vector<std::vector<std::string>> G,S,M;     // G: {"G",geom,cond} or {"I",name,path,...}
+    Catalog() {
+        std::ifstream in("catalog.txt"); std::string line;
+        while (std::getline(in,line)) {
+            std::istringstream ls(line); std::vector<std::string> t; std::string x; while (ls >> x) t.push_back(x);
+            if (t.empty()) continue;
+            if (t[0]=="G" || t[0]=="I") G.push_back(t); else if (t[0]=="S") S.push_back(t); else if (t[0]=="M") M.push_back(t);
+        }
+    }
+};
+static Catalog& catalog() { static Catalog c; return c; }
+
+template <typename F> static ll guarded_om(const F& f) {
+    try { f(); return 0; }
+    catch (maths::Exception& e) { return (ll)e.code(); }
+    catch (OpenMEEG::Exception& e) { return 2000+(ll)e.code(); }
+    catch (std::invalid_argument&) { return 1; }
+    catch (...) { return 3; }
+}
+
+static ll geom_do(Geometry& g,size_t i) {
+    const auto& t = catalog().G.at(i);
+    return guarded_om([&]() {
+        if (t[0]=="G") { if (t.size()>2 && t[2]!="-") g.load(t[1],t[2]); else g.load(t[1]); }
+        else { Geometry::MeshList ml; for (size_t k=1;k+1<t.size();k+=2) ml.push_back({ t[k], t[k+1] }); g.import(ml); }
+    });
+}
+static Wire geom_obs(ll st,Geometry& g) {
+    return Wire{ st,(ll)g.vertices().size(),(ll)g.meshes().size(),(ll)g.domains().size(),(ll)g.nb_parameters(),
+                 (ll)g.communicating_mesh_pairs().size(),(ll)g.isolated_parts().size(),(ll)g.invalid_vertices_.size(),
+                 (ll)g.nb_current_barrier_triangles(),(ll)(g.is_nested()?1:0) };
+}
+static ll headmat_fp(const Geometry& g) {
+    ll fp = 0;
+    const ll st = guarded_om([&]() { SymMatrix H = HeadMat(g,Integrator(3,0,0.005)); fp = mhash(H.data(),H.size()); });
+    return st ? -(1000000+st) : fp;
+}
+// what entry i does to a fresh object
+static Wire geom_describe(size_t i) {
+    Geometry g;
+    const ll st = geom_do(g,i);
+    const bool fin = (st==0 && catalog().G.at(i)[0]=="G");
+    Wire o{ st,(ll)g.vertices().size() };
+    size_t valid = 0;
+    for (const auto& v : g.vertices()) { o.push_back(vhash(v)); if (v.index()!=unsigned(-1)) ++valid; }
+    o.push_back((ll)g.meshes().size()); o.push_back((ll)g.domains().size()); o.push_back(fin);
+    const bool marks = fin && g.has_conductivities();
+    o.push_back(marks);
+    o.push_back((ll)g.invalid_vertices_.size()); for (const auto& v : g.invalid_vertices_) o.push_back(vhash(v));
+    std::set<ll> ni; if (marks) for (const auto& m : g.meshes()) if (!m.isolated()) for (const auto& v : m.vertices()) ni.insert(vhash(*v));
+    o.push_back((ll)ni.size()); for (ll h : ni) o.push_back(h);
+    o.push_back((ll)g.isolated_parts().size());
+    o.push_back(fin ? (ll)g.nb_parameters()-(ll)valid : 0);
+    o.push_back((ll)g.nb_current_barrier_triangles()); o.push_back((ll)g.communicating_mesh_pairs().size()); o.push_back(g.is_nested()?1:0);
+    o.push_back(marks ? headmat_fp(g) : 0);
+    return o;
+}
+static Wire run_geom(Reader& r) {
+    Geometry g;
+    const size_t nops = r.n(); Wire out;
+    for (size_t q=0;q<nops;++q) {
+        const size_t o = r.n(), i = r.n();
+        Wire ob;
+        if (o==0) { const ll st = geom_do(g,i); ob = geom_obs(st,g); }
+        else ob = geom_obs((g.meshes().empty() || g.domains().empty() || !g.has_conductivities()) ? -1 : headmat_fp(g),g);
+        out.push_back((ll)ob.size()); out.insert(out.end(),ob.begin(),ob.end());
+    }
+    return out;
+}
+
+static Geometry& reference_head() {
+    static Geometry* g = nullptr;
+    if (!g) { const auto& t = catalog().G.at(0); g = new Geometry(t[1],t[2]); }
+    return *g;
+}
+static Wire sens_obs(ll st,const Sensors& s) {
+    if (st) return Wire{ st };
+    Wire o{ 0,(ll)s.m_nb,(ll)s.m_positions.nlin(),(ll)s.m_orientations.nlin(),(ll)s.m_weights.nlin(),(ll)s.m_radii.nlin(),(ll)s.m_triangles.size(),
+            (ll)(s.hasNames()?1:0),(ll)s.m_names.size() };
+    for (const auto& n : s.m_names) o.push_back(shash(n));
+    for (size_t k : s.m_pointSensorIdx) o.push_back((ll)k);
+    return o;
+}
+static Wire run_sens(Reader& r,bool describe) {
+    const bool geom = r.n()!=0;
+    Sensors* s = geom ? new Sensors(reference_head()) : new Sensors();
+    const size_t nops = describe ? 1 : r.n(); Wire out;
+    for (size_t q=0;q<nops;++q) {
+        const size_t i = r.n();
+        const std::string f = catalog().S.at(i)[1];
+        const ll st = guarded_om([&]() { s->load(f.c_str(),'t'); });
+        Wire ob = sens_obs(st,*s);
+        if (describe && st) ob.push_back((ll)s->m_positions.nlin());
+        out.push_back((ll)ob.size()); out.insert(out.end(),ob.begin(),ob.end());
+    }
+    return out;
+}
+
+static ll surfsource_fp(Mesh& m) {
+    ll fp = 0;
+    const ll st = guarded_om([&]() { Matrix S = SurfSourceMat(reference_head(),m,Integrator(3,0,0.005)); fp = mhash(S.data(),S.size()); });
+    return st ? 0 : fp;
+}
+static Wire mesh_obs(ll st,const Mesh& m) {
+    Wire o{ st,(ll)m.geometry().vertices().size(),(ll)m.vertices().size(),(ll)m.triangles().size(),
+            (ll)m.outermost(),(ll)m.current_barrier(),(ll)m.isolated() };
+    for (const auto& t : m.triangles()) {
+        const TriangleIndices ti = m.triangle(t);
+        ll a[3] = { (ll)ti[0],(ll)ti[1],(ll)ti[2] }; std::sort(a,a+3);
+        o.insert(o.end(),a,a+3);
+    }
+    return o;
+}
+static Wire mesh_describe(size_t i) {
+    Mesh m;
+    const ll st = guarded_om([&]() { m.load(catalog().M.at(i)[1],false); });
+    Wire o{ st,(ll)m.vertices().size() };
+    std::map<const Vertex*,ll> pos; ll k = 0;
+    for (const auto& v : m.vertices()) { o.push_back(vhash(*v)); pos[v] = k++; }
+    o.push_back((ll)m.triangles().size());
+    for (const auto& t : m.triangles()) for (unsigned c=0;c<3;++c) o.push_back(pos.at(&t.vertex(c)));
+    o.push_back((st==0 && !m.vertices().empty()) ? surfsource_fp(m) : 0);
+    o.push_back((ll)m.current_barrier());
+    return o;
+}
+static Wire run_mesh(Reader& r) {
+    Mesh m;
+    const size_t nops = r.n(); Wire out; bool loaded = false;
+    for (size_t q=0;q<nops;++q) {
+        const size_t o = r.n(), i = r.n();
+        Wire ob;
+        if (o==0) { const ll st = guarded_om([&]() { m.load(catalog().M.at(i)[1],false); }); loaded = (st==0); ob = mesh_obs(st,m); }
+        else ob = mesh_obs(loaded ? surfsource_fp(m) : -1,m);
+        out.push_back((ll)ob.size()); out.insert(out.end(),ob.begin(),ob.end());
+    }
+    return out;
+}
+
 static Wire dispatch(const std::string& comp,Reader& r) {
     if (comp!="c17") return Wire{-1};
     const size_t m = r.n();
@@ -151,6 +302,12 @@ static Wire dispatch(const std::string& comp,Reader& r) {
             return out;
         }
         case 1: return run_io(r);
+        case 2: return run_geom(r);
+        case 20: return geom_describe(r.n());
+        case 3: return run_sens(r,false);
+        case 30: return run_sens(r,true);
+        case 4: return run_mesh(r);
+        case 40: return mesh_describe(r.n());
         case 10: {  // write the fixed object of kind k with the explicit format g into w.out
             const size_t g = r.n(), k = r.n();
             if (g>3 || k>3) throw Reader::Malformed();
